@@ -426,6 +426,10 @@ func c03GateSwap(r *core.Run, rule string) {
 				}
 			})
 			r.Check(mask == int64(types.IsInteger|types.IsString), rule, fnm+"#operand-type-mask", pc.Pos(), "swap only for integer or string operands", fmt.Sprintf("the swap's operand type mask is %d, not IsInteger|IsString: NaN-sensitive float comparisons (or others) would be swapped", mask))
+			if strings.HasPrefix(rule, "C02") {
+				all, bad := structuralAsserts(callee, "types.Basic")
+				r.Check(len(all) > 0 && len(bad) == 0, rule, fnm+"#operand-type-through-Underlying", pc.Pos(), "the operand type test looks through defined types (Underlying)", "the operand type test is applied to the declared type, not its Underlying(): comparisons of defined integer/string types (type Idx int) are never swapped, so the >=/> rewrite changes their fingerprint")
+			}
 		}
 		r.Check(nTrue >= 2, rule, fnm+"#both-operand-types-checked", upd.Pos(), "both operand types pass the type predicate", "the swap does not require both operand types to be integer/string")
 		// (b) sole referrer: every referrer other than DebugRef must be this If
@@ -887,6 +891,8 @@ func c03GateHoist(r *core.Run) {
 					}
 				})
 			}
+			allTA, badTA := structuralAsserts(purePred, "types.Map", "types.Chan")
+			r.Check(len(allTA) >= 2 && len(badTA) == 0, rule, pn+"#volatile-length-through-Underlying", ret.Pos(), "the map/channel test looks through defined types (Underlying)", "the map/channel test is applied to the declared type, not its Underlying(): len/cap of a defined map or channel type (type Set map[K]V) counts as pure and is hoisted out of a loop that changes it")
 			r.Check(nType >= 2, rule, pn+"#volatile-length-excluded", ret.Pos(), "len/cap of maps and channels are not pure", "len/cap of a map or channel is considered pure: it would be hoisted out of a loop that changes it")
 		}
 	}
